@@ -17,6 +17,10 @@ import traceback
 VERIF = os.path.dirname(os.path.dirname(os.path.abspath(__file__)))
 REPO = os.environ.get("VERIF_REPO", "/repo")
 NPROC = int(os.environ.get("VERIF_NPROC", "16"))
+# evidence/replays can be redirected when a check is pointed at a scratch copy
+# (seeded-change demonstrations) so that /verif/evidence keeps describing /repo
+EVIDENCE_DIR = os.environ.get("VERIF_EVIDENCE_DIR") or os.path.join(VERIF, "evidence")
+REPLAY_DIR = os.environ.get("VERIF_REPLAY_DIR") or os.path.join(VERIF, "replays")
 SEED = int(os.environ.get("VERIF_SEED", "0") or 0)
 
 
@@ -305,8 +309,8 @@ class Run:
             "wall_s": round(wall, 2),
             "violations": len(self.viol),
         }
-        os.makedirs(os.path.join(VERIF, "evidence"), exist_ok=True)
-        evp = os.path.join(VERIF, "evidence", f"{self.pid}.json")
+        os.makedirs(EVIDENCE_DIR, exist_ok=True)
+        evp = os.path.join(EVIDENCE_DIR, f"{self.pid}.json")
         with open(evp + ".tmp", "w") as f:
             json.dump(ev, f, indent=1, sort_keys=True, default=str)
         os.replace(evp + ".tmp", evp)
@@ -317,7 +321,7 @@ class Run:
         rc = 0
         for sig in sorted(self.viol):
             case, detail, n = self.viol[sig]
-            d = os.path.join(VERIF, "replays", self.pid)
+            d = os.path.join(REPLAY_DIR, self.pid)
             os.makedirs(d, exist_ok=True)
             h = hashlib.sha1(sig.encode()).hexdigest()[:10]
             path = os.path.join(d, f"{h}.json")
